@@ -22,3 +22,6 @@ package ina
 //@   property C10
 //@   opaque
 //@   sweep idx slice div assert
+
+// every other function of the package (helpers added later included)
+//@ sweepall C10 idx slice div assert
